@@ -330,7 +330,7 @@ func init() {
 					}
 					rsrc := src.(sourceaddrs.RemoteSource)
 					base, _ := b.LocalPathForRemoteSource(rsrc.Package().SourceAddr(""))
-					answers = append(answers, X(filepath.Base(base))+"~"+X(rsrc.SubPath()))
+					answers = append(answers, X(filepath.Base(base))+"~"+X(rsrc.SubPath())+"~"+X(rsrc.Package().String()))
 					back, err := b.LocalPathForSource(src)
 					if err != nil || back != filepath.Clean(p) {
 						fail(fmt.Sprintf("translating %s to an address and back gives %q (err %v)", p, back, err))
